@@ -44,6 +44,11 @@ fn grid_txt(fs: &FrequencySpace) -> String {
   format!("x=({:e},{:e},{}) y=({:e},{:e},{})", ax, bx, nx, ay, by, ny)
 }
 
+/// Σ|f|² computed here (the predicates' notion of a non-zero spectrum must not depend on the code under test)
+pub fn own_norm(v: &[C]) -> f64 {
+  v.iter().map(|z| z.re * z.re + z.im * z.im).sum()
+}
+
 fn close(a: f64, b: f64, rel: f64, floor: f64) -> bool {
   a == b || (a - b).abs() <= rel * a.abs().max(b.abs()) + floor
 }
@@ -194,8 +199,9 @@ fn array_case(ctx: &mut Ctx, n: usize, kind: usize) {
 
   // K: swap_arr (the model's index permutation) and jsi_norm
   ctx.k("swap_arr", &format!("{} {}", n, cxs(&f)), &fls(&g.iter().flat_map(|z| [z.re, z.im]).collect::<Vec<_>>()));
-  let norm = jsi_norm(&f);
-  ctx.k("jsi_norm", &cxs(&f), &fl(norm));
+  let norm_impl = jsi_norm(&f);
+  ctx.k("jsi_norm", &cxs(&f), &fl(norm_impl));
+  let norm = own_norm(&f);
 
   let mut delays = vec![0.0, gen_delay(&mut ctx.rng, span), gen_delay(&mut ctx.rng, span)];
   if ctx.rng.coin() {
@@ -279,7 +285,7 @@ fn general_case(ctx: &mut Ctx, maxn: usize) {
   let ser = guard(|| hom_rate_series(fs, &f, &g, delays.iter().map(|t| *t * S).collect::<Vec<Time>>()));
   ctx.k("hom_rate_series", &format!("{} 2 {} {} {}", gs, fls(&delays), cxs(&f), cxs(&g)), &out_fls(&ser));
   // S: a delay series equals the individually computed rates — also for unrelated arrays
-  if lf >= len && lg >= len && len > 0 && jsi_norm(&f) > 0.0 {
+  if lf >= len && lg >= len && len > 0 && own_norm(&f) > 0.0 {
     let ind: Vec<Option<f64>> = delays.iter().map(|t| guard(|| hom_rate(fs, &f, &g, *t * S, None))).collect();
     let ok = match &ser {
       Some(v) => v.len() == 2 && v.iter().zip(ind.iter()).all(|(x, y)| matches!(y, Some(y) if close(*x, *y, 1e-12, 1e-13))),
@@ -362,7 +368,7 @@ pub struct Setup {
 /// a small zoo of phase-matched setups with randomised lengths, waists and bandwidths
 pub fn gen_setup(r: &mut Rng, want_degenerate: Option<bool>) -> Setup {
   for _ in 0..50 {
-    let kind = r.below(5);
+    let kind = r.below(6);
     let len_um = r.log_range(500.0, 20000.0);
     let wp = r.log_range(40.0, 400.0);
     let ws = r.log_range(30.0, 300.0);
@@ -416,6 +422,23 @@ pub fn gen_setup(r: &mut Rng, want_degenerate: Option<bool>) -> Setup {
           "LN-0-pp",
         )
       }
+      5 => {
+        // BBO type I, angle tuned, non-collinear signal
+        let lp = 405.0 + r.range(-5.0, 5.0);
+        let ls = if degenerate { 2.0 * lp } else { 2.0 * lp + r.range(-40.0, 40.0) };
+        let len_um = len_um.min(3000.0);
+        let th = r.range(0.5, 3.0);
+        (
+          format!(
+            r#"{{"crystal":{{"kind":"BBO_1","pm_type":"e->oo","phi_deg":0,"theta_deg":"auto","length_um":{len_um},"temperature_c":20}},
+"pump":{{"wavelength_nm":{lp},"waist_um":{wp},"bandwidth_nm":{bw},"average_power_mw":100}},
+"signal":{{"wavelength_nm":{ls},"phi_deg":0,"theta_external_deg":{th},"waist_um":{ws},"waist_position_um":"auto"}},
+"idler":"auto","deff_pm_per_volt":1.0}}"#,
+            bw = bw.min(3.0)
+          ),
+          "BBO-I-angle-noncollinear",
+        )
+      }
       _ => {
         // KTP type II with a slightly non-collinear signal
         let lp = 775.0;
@@ -460,6 +483,66 @@ pub fn gen_setup(r: &mut Rng, want_degenerate: Option<bool>) -> Setup {
   Setup { name: "default".into(), spdc: SPDC::default(), degenerate: true }
 }
 
+/// `gen_setup` plus everything that is varied rarely: the pm-type family is drawn uniformly (type 0, I, II,
+/// collinear or not), collection modes are made unequal one field at a time (idler waist, idler / signal waist
+/// position — fields that break the exchange symmetry of the JSA), and the source brightness spans many
+/// decades (pump power 1e-9 … 1e3 mW, deff 1e-3 … 1e2 pm/V).
+pub fn gen_setup_x(r: &mut Rng, want_degenerate: Option<bool>) -> Setup {
+  let family = *r.pick(&["LN-0-pp", "BBO-I-angle/", "BBO-I-angle-noncollinear", "KTP-II-pp/", "KTP-II-pp-noncollinear"]);
+  let mut st = gen_setup(r, want_degenerate);
+  for _ in 0..60 {
+    if st.name.starts_with(family) {
+      break;
+    }
+    st = gen_setup(r, want_degenerate);
+  }
+  let mut spdc = st.spdc.clone();
+  let mut tags: Vec<String> = vec![];
+  let w_um = *(spdc.signal.waist().x / (MICRO * M));
+  let asym = r.below(7);
+  if asym == 1 || asym == 5 {
+    let f = *r.pick(&[0.3, 0.5, 0.999, 1.001, 2.0, 3.0]);
+    spdc.idler.set_waist(w_um * f * MICRO * M);
+    tags.push(format!("idler_waist_um={:.6e}", w_um * f));
+  }
+  if asym == 2 || asym == 4 || asym == 5 || asym == 6 {
+    let l_um = *(spdc.crystal_setup.length / (MICRO * M));
+    let z = -r.range(0.0, 1.0) * l_um;
+    spdc.idler_waist_position = z * MICRO * M;
+    tags.push(format!("idler_waist_position_um={:.6e}", z));
+  }
+  if asym == 3 || asym == 4 || asym == 5 {
+    let l_um = *(spdc.crystal_setup.length / (MICRO * M));
+    let z = -r.range(0.0, 1.0) * l_um;
+    spdc.signal_waist_position = z * MICRO * M;
+    tags.push(format!("signal_waist_position_um={:.6e}", z));
+  }
+  if asym == 6 {
+    // equal waists and an explicitly collinear idler, only the waist positions differ
+    let w = spdc.signal.waist();
+    spdc.idler.set_waist(w);
+  }
+  let stratum = r.below(4);
+  if stratum != 0 {
+    // 1: anywhere in the twelve / five decades; 2: the weak corner; 3: the bright corner
+    let (p, d) = match stratum {
+      1 => (r.log_range(1e-9, 1e3), r.log_range(1e-3, 1e2)),
+      2 => (r.log_range(1e-9, 1e-5), r.log_range(1e-3, 1e-1)),
+      _ => (r.log_range(1e1, 1e3), r.log_range(1e1, 1e2)),
+    };
+    spdc.pump_average_power = p * MILLIW;
+    spdc.deff = d * PICO * M / V;
+    tags.push(format!("power_mw={:.4e}", p));
+    tags.push(format!("deff_pm_per_volt={:.4e}", d));
+  }
+  let s2 = spdc.clone();
+  if guard(move || s2.joint_spectrum(Integrator::default())).is_none() {
+    return st;
+  }
+  let name = if tags.is_empty() { st.name.clone() } else { format!("{},{}", st.name, tags.join(",")) };
+  Setup { name, spdc, degenerate: st.degenerate }
+}
+
 /// square grid with identical signal and idler axes around the degenerate frequency
 fn symmetric_range(r: &mut Rng, s: &SPDC, n: usize) -> FrequencySpace {
   let o = raw(&s.optimum_range(n));
@@ -500,7 +583,7 @@ pub fn integrator_zoo(r: &mut Rng, with_gk: bool) -> Vec<(String, Integrator)> {
 fn history_part(ctx: &mut Ctx) {
   let rounds = ctx.n;
   for round in 0..rounds {
-    let st = [gen_setup(&mut ctx.rng, Some(true)), gen_setup(&mut ctx.rng, Some(true))];
+    let st = [gen_setup_x(&mut ctx.rng, Some(true)), gen_setup_x(&mut ctx.rng, Some(true))];
     let n = *ctx.rng.pick(if ctx.thorough { &[3usize, 4, 6, 8][..] } else { &[3usize, 4, 5][..] });
     let grids = [symmetric_range(&mut ctx.rng, &st[0].spdc, n), symmetric_range(&mut ctx.rng, &st[0].spdc, n)];
     let zoo = integrator_zoo(&mut ctx.rng, false);
@@ -594,7 +677,7 @@ fn history_part(ctx: &mut Ctx) {
 fn setup_part(ctx: &mut Ctx) {
   let sides: &[usize] = if ctx.thorough { &[1, 2, 3, 5, 8, 13, 16, 24] } else { &[1, 2, 4, 6, 8] };
   for c in 0..ctx.n {
-    let st = gen_setup(&mut ctx.rng, Some(true));
+    let st = if c % 3 == 0 { gen_setup(&mut ctx.rng, Some(true)) } else { gen_setup_x(&mut ctx.rng, Some(true)) };
     let n = *ctx.rng.pick(sides);
     let spdc = st.spdc.clone();
     let integ = Integrator::default();
@@ -610,7 +693,8 @@ fn setup_part(ctx: &mut Ctx) {
     let gs = grid_str(&fs);
     let gt = grid_txt(&fs);
     let span = (bx - ax).abs();
-    let norm = jsi_norm(&f);
+    let norm = own_norm(&f);
+    ctx.k("jsi_norm", &cxs(&f), &fl(jsi_norm(&f)));
     if identical {
       // the exchanged-argument array on identical axes is the array read at exchanged positions
       ctx.k("swap_arr", &format!("{} {}", n, cxs(&f)), &fls(&g.iter().flat_map(|z| [z.re, z.im]).collect::<Vec<_>>()));
@@ -757,7 +841,7 @@ fn two_part(ctx: &mut Ctx) {
       _ => *ctx.rng.pick(&[Integrator::GaussLegendre { degree: 40 }, Integrator::GaussLegendre { degree: 6 }, Integrator::GaussLegendre { degree: 16 }]),
     };
     ctx.count(&format!("two/integrator/{}", format!("{:?}", integ).split(' ').next().unwrap_or("?")));
-    let st1 = gen_setup(&mut ctx.rng, None);
+    let st1 = if c % 3 == 0 { gen_setup(&mut ctx.rng, None) } else { gen_setup_x(&mut ctx.rng, None) };
     let n = *ctx.rng.pick(sides);
     let s1 = st1.spdc.clone();
     let js1 = s1.joint_spectrum(integ);
@@ -790,7 +874,7 @@ fn two_part(ctx: &mut Ctx) {
           &format!("1 {} {} {} {} {} {}", gs, gs, z, z, z, es),
           &fls(&[v.ss.1, v.ii.1, v.si.1]),
         );
-        let norm = jsi_norm(&e[0]);
+        let norm = own_norm(&e[0]);
         if norm > 0.0 {
           // S: V_ss = V_ii = purity (1e-9)
           ctx.s("C10.purity", (v.ss.1 - v.ii.1).abs() <= 1e-9, "hom2/vss-eq-vii", &format!("{} vss={:e} vii={:e}", det, v.ss.1, v.ii.1));
@@ -813,7 +897,7 @@ fn two_part(ctx: &mut Ctx) {
       }
       if let Some(r) = &res {
         let ident = { let q = raw(&r1); q.0 == q.3 && q.1 == q.4 };
-        rate_bounds(ctx, &r.ss, &r.ii, &r.si, &delays, &det, "same", rk, [jsi_norm(&e[0]), jsi_norm(&e[1]), jsi_norm(&e[6]), jsi_norm(&e[7])], ident);
+        rate_bounds(ctx, &r.ss, &r.ii, &r.si, &delays, &det, "same", rk, [own_norm(&e[0]), own_norm(&e[1]), own_norm(&e[6]), own_norm(&e[7])], ident);
       } else {
         ctx.s("C10.bounds", false, "hom2/rate-series-panic", &det);
       }
@@ -899,7 +983,7 @@ fn call_two_series(spdc: &SPDC, times: Vec<Time>, r: FrequencySpace, integ: Inte
 /// integrator) and with the model fed with its own eight grids.
 fn two_loop_part(ctx: &mut Ctx) {
   for round in 0..ctx.n {
-    let st0 = gen_setup(&mut ctx.rng, Some(true));
+    let st0 = if round % 2 == 0 { gen_setup(&mut ctx.rng, Some(true)) } else { gen_setup_x(&mut ctx.rng, Some(true)) };
     let n = *ctx.rng.pick(if ctx.thorough { &[4usize, 6, 8, 11][..] } else { &[4usize, 5, 6][..] });
     // variants of the setup that share its wavelengths, so that one grid suits all of them
     let mut setups: Vec<(String, SPDC)> = vec![(st0.name.clone(), st0.spdc.clone())];
@@ -965,7 +1049,7 @@ fn two_loop_part(ctx: &mut Ctx) {
       let (name, spdc) = &setups[j];
       let (e, pur) = &own[j];
       let es = eight_str(e);
-      let norm = jsi_norm(&e[0]);
+      let norm = own_norm(&e[0]);
       let here = format!("setup#{}/{}", j, if want_vis { "visibilities" } else { "rate_series" });
       let det = format!(
         "round={} pos={} call={} previous_call={} setup={} integrator={} n={} {} seedcase={}",
@@ -998,7 +1082,7 @@ fn two_loop_part(ctx: &mut Ctx) {
                 let vii = (0.5 - r.ii[0]) / 0.5;
                 ctx.s("C10.purity", (vss - p).abs() <= 1e-9 && (vii - p).abs() <= 1e-9, "hom2/series-zero-delay-eq-purity", &format!("{} vss={:e} vii={:e} purity={:e}", det, vss, vii, p));
               }
-              rate_bounds(ctx, &r.ss, &r.ii, &r.si, &delays, &det, "same", "loop", [norm, jsi_norm(&e[1]), jsi_norm(&e[6]), jsi_norm(&e[7])], ident);
+              rate_bounds(ctx, &r.ss, &r.ii, &r.si, &delays, &det, "same", "loop", [norm, own_norm(&e[1]), own_norm(&e[6]), own_norm(&e[7])], ident);
             }
           }
           None => ctx.s("C10.bounds", false, "hom2/rate-series-panic", &det),
